@@ -31,6 +31,10 @@ def extract(config, repo, crate='piecewise_polynomial', tag=''):
         sys.stderr.write(r.stderr)
         raise SystemExit(2)
     f = Facts(out)
+    keep = os.environ.get('VERIF_KEEP_FACTS')
+    if keep and config == 'default':
+        import shutil
+        shutil.copy(out, keep)
     try:
         os.unlink(out)
     except OSError:
